@@ -183,10 +183,17 @@ def gen_nas_unit(rng):
     op = rng.choice(NAS_OPS)
     if op == '"sort_by"':
         keys = []
-        for _ in range(rng.choice((2, 3, 5, 8, 12))):
+        for _ in range(rng.choice((2, 3, 5, 8, 12, 33, 48, 96))):       # (beyond the sizes a library sorts by insertion)
             r = rng.random()
             keys.append(pad_int(rng) if r < 0.45 else respell(rng, rng.choice(keys)) if keys and r < 0.65 else dec_string(rng))
         return {"kind": "nas", "op": op, "keys": keys, "fn": rng.choice(['"sort_by"', '"order_by"', "sort_by_nas", "order_by_nas"]), "seed": rng.getrandbits(16)}
+    if op in ('"+"', '"*"', '"-"') and rng.random() < 0.08:
+        good = [jm.dumps(rng.choice(("0", "0.00", "-0.0", "0e5", "12", "1.5"))) for _ in range(rng.choice((1, 2)))]
+        bad = rng.choice(['"n/a"', '""', "7", "true", "null", "[1]", ".nosuch", ".s", ".n", '"1,5"', '"1 2"', '"--1"'])
+        args = good + [bad] if rng.random() < 0.6 else [bad] + good
+        if op == '"-"':
+            args = [good[0], bad] if rng.random() < 0.5 else [bad, good[0]]
+        return {"kind": "nas", "op": op, "notnum": bad, "args": args, "seed": rng.getrandbits(16)}
     a, b, c = dec_string(rng), dec_string(rng), dec_string(rng)
     if rng.random() < 0.3:
         b = respell(rng, a)
@@ -313,6 +320,23 @@ def run_unit(ctx, unit):
             return
         st.see("nontrivial", (op, len(unit["keys"]), any(k.startswith("0") and len(k) > 1 for k in unit["keys"]), any("e" in k.lower() for k in unit["keys"])))
         st.count("nas_sorts_checked")
+        return
+    if unit.get("notnum") is not None:
+        # "if all the arguments are numbers as string": one that is not makes the result nothing, wherever it stands (also
+        # behind a zero factor, also behind operands whose sum is already known)
+        args = list(unit["args"])
+        expr = "(%s %s)" % (op, " ".join(args))
+        o = ctx.drv.run(core.Case(["--select=%s=v" % expr, "--select=1=one"], b'{"z":"0","n":7,"s":"n/a"}'))
+        if o.result != "ok":
+            st.violation("run:" + o.result, "run failed: %s %s" % (o.errtext, o.panicinfo), unit, {"expr": expr})
+            return
+        st.count("conclusive")
+        rows = [jm.plain(r) for r in jm.read_rows(o.stdout)]
+        if not rows or "v" in rows[0]:
+            st.violation("nas-not-a-number-accepted:" + op, "%s gave %r although one argument is not a number as string" % (expr, rows[0].get("v") if rows else None), unit, {"expr": expr})
+            return
+        st.count("nas_non_number_operands")
+        st.see("nontrivial", (op, "notnum", len(args)))
         return
     a, b, c = unit["a"], unit["b"], unit["c"]
     fa, fb, fc = Fraction(a), Fraction(b), Fraction(c)
